@@ -39,6 +39,17 @@ fn main() {
             let mut v = vec![i as u8];
             v.extend_from_slice(&b.compressed);
             std::fs::write(d.join(format!("compressed-{i}")), &v).unwrap();
+            for (dir, bytes) in [("raw_verifier", &b.verifier_bytes), ("raw_pp", &b.pp_bytes), ("raw_prover", &b.prover_bytes)] {
+                // keep the committed corpus small: parameters and provers of the smallest base only
+                if dir != "raw_verifier" && i != 0 {
+                    continue;
+                }
+                let d = root.join(dir);
+                std::fs::create_dir_all(&d).unwrap();
+                let mut v = vec![i as u8];
+                v.extend_from_slice(bytes);
+                std::fs::write(d.join(format!("{}-{i}", &dir[4..])), &v).unwrap();
+            }
         }
         let d = root.join("decoders");
         std::fs::create_dir_all(&d).unwrap();
